@@ -1,1 +1,42 @@
-def install(e): pass
+"""rand::rngs::StdRng: every draw is a fresh symbolic value (covers every seed and every sequence)."""
+import z3
+from .engine import *
+from .models import deref, d1, unguard
+
+class RngObj:
+    def __init__(self): self.draws = []
+    def clone(self, e): return self
+    def __repr__(self): return 'StdRng'
+
+LOCAL = {}
+def lmodel(*names):
+    def deco(f):
+        f.model_name = 'rand:' + names[0]
+        for n in names: LOCAL[n] = f
+        return f
+    return deco
+
+def new_rng_cell():
+    return CellObj(RngObj(), 'refcell')
+
+@lmodel('SeedableRng::from_entropy', 'SeedableRng::from_seed', 'SeedableRng::seed_from_u64')
+def _from_entropy(e, c, a): return RngObj()
+@lmodel('RngCore::next_u64')
+def _next_u64(e, c, a):
+    r = unguard(a[0])
+    k = e.hooks.get('draws', 0); e.hooks['draws'] = k + 1
+    lim = e.hooks.get('max_draws')
+    if lim is not None and k >= lim: raise BoundExceeded('random draws')
+    v = z3.BitVec('draw%d' % k, 64)
+    r.draws.append(v)
+    return v
+@lmodel('Rng::gen_bool')
+def _gen_bool(e, c, a):
+    r = unguard(a[0])
+    k = e.hooks.get('draws', 0); e.hooks['draws'] = k + 1
+    v = z3.Bool('coin%d' % k)
+    r.draws.append(v)
+    return v
+
+def install(e):
+    e.models.update(LOCAL)
